@@ -21,14 +21,14 @@ from concurrent.futures import ThreadPoolExecutor
 MUT = os.environ.get("MUT", "/var/tmp/mut")
 REPO = "/repo"
 FILES = ["range.rs", "etag.rs", "serving.rs", "body.rs", "chunker.rs", "gzip.rs", "lib.rs", "file.rs", "platform.rs", "dir.rs"]
-RELEVANT = {
-    "range.rs": ["C03", "C02", "C13", "C06", "C01", "C05"],
-    "etag.rs": ["C04", "C05", "C13", "C14"],
-    "serving.rs": ["C01", "C02", "C03", "C04", "C05", "C06", "C07", "C12", "C13", "C14", "C15", "C20"],
-    "body.rs": ["C01", "C07", "C12", "C20", "C02"],
-    "chunker.rs": ["C08", "C10", "C11", "C12", "C20", "C09"],
-    "gzip.rs": ["C09", "C11", "C17", "C08"],
-    "lib.rs": ["C16", "C17", "C15", "C13", "C19"],
+RELEVANT = {  # cheapest and broadest first: the run stops at the first check that catches the mutant
+    "range.rs": ["C03", "C02", "C13", "C06", "C05", "C01"],
+    "etag.rs": ["C05", "C14", "C13", "C04"],
+    "serving.rs": ["C02", "C03", "C05", "C06", "C07", "C14", "C13", "C04", "C15", "C20", "C01", "C12"],
+    "body.rs": ["C07", "C02", "C20", "C01", "C12"],
+    "chunker.rs": ["C11", "C08", "C10", "C20", "C09", "C12"],
+    "gzip.rs": ["C11", "C17", "C09", "C08"],
+    "lib.rs": ["C16", "C17", "C19", "C13", "C15"],
     "file.rs": ["C18"],
     "platform.rs": ["C18"],
     "dir.rs": ["C19"],
